@@ -16,6 +16,7 @@ HASHER = re.compile(r"^(KSI_DataHasher_(add|reset|open|close|addImprint|addOctet
 def run(prog, chk):
     chk.defer(chain_list_table, prog, chk)
     chk.defer(remembered_root_rule, prog, chk)
+    chk.defer(sibling_table, prog, chk)
     chk.explanation = (
         "hashchain.c: (R3a) no error status stored into the status variable is overwritten before it can be observed; (R6) aggregateChain is evaluated abstractly for one link with every combination "
         "of link direction x calendar/aggregation x in-range / out-of-range level correction and start level: hashing order "
@@ -58,7 +59,7 @@ def run(prog, chk):
     ctx, chain, inputHash, startLevel, algo, isCal, endLevel, outHash = pn
     INALG, LINKALG = 1, 5
 
-    def table_row(isLeft, cal, start, corr):
+    def table_row(isLeft, cal, start, corr, nlinks=1):
         calls = []
 
         def elementAt(I, p, node, args):
@@ -84,8 +85,9 @@ def run(prog, chk):
             return 0
 
         ov = {
-            "KSI_HashChainLinkList_length": lambda I, p, n, a: 1,
+            "KSI_HashChainLinkList_length": lambda I, p, n, a: nlinks,
             "KSI_HashChainLinkList_elementAt": elementAt,
+            "KSI_DataHash_ref": lambda I, p, n, a: a[0],
             "KSI_Integer_getUInt64": lambda I, p, n, a: corr,
             "KSI_DataHash_extract": extract,
             "KSI_DataHasher_open": hopen,
@@ -99,6 +101,19 @@ def run(prog, chk):
         return I, I.run()
 
     nrows = 0
+    # a chain without links: zero steps leave the input hash at the start level (the only leaf of a tree has such a chain)
+    for cal, start in ((0, 0), (0, 7), (1, 0)):
+        I, paths = table_row(1, cal, start, 0, nlinks=0)
+        chk.paths += len(paths)
+        inst = "aggregateChain[no links,%s,start=%d]" % ("calendar" if cal else "aggregation", start)
+        if len(paths) != 1 or paths[0].undetermined:
+            raise AnalysisBroken("aggregateChain: evaluation not determined for %s" % inst)
+        q = paths[0]
+        so, sl = q.stores("*" + outHash), q.stores("*" + endLevel)
+        got = (q.ret, so[-1][2] if so else None, sl[-1][2] if sl else None)
+        nrows += 1
+        chk.ob("C03.fold", inst, got[0] == 0 and got[1] == Ptr("input") and got[2] in (start, None if cal else start),
+               "expected KSI_OK, the input hash as output and level %d; source: status %s, output %s, level %s" % (start, got[0], got[1], got[2]), loc=fn.loc(), fn=fn)
     for isLeft, cal in itertools.product((1, 0), (0, 1)):
         for start, corr, expect_ok in ((3, 4, True), (0, 0, True), (0, 254, True), (3, 256, False), (250, 10, False), (0, 1 << 32, False),
                                        (0, 255, False), (255, 0, False)):
@@ -259,7 +274,10 @@ def chain_list_table(prog, chk):
     chk.rule("C03.list", "chain list: each chain starts at the previous chain's output level; result = last output; a failure ends the fold (decision table)", floor=8)
     fn = prog.fn("KSI_AggregationHashChainList_aggregate", "hashchain.c")
     lp_, cp, vp, op = [p["n"] for p in fn.params]
-    for n, start, failing in ((1, 0, None), (2, 0, None), (3, 7, None), (2, 250, None), (2, 0, 1), (3, 0, 0), (3, 0, 2), (1, 256, None), (1, -1, None), (0, 0, None)):
+    # the second half of the scenarios: every chain object still remembers an output from an aggregation at ANOTHER level (the chain objects
+    # keep their last result; whether it applies is decided by KSI_AggregationHashChain_aggregate, nobody else may take it as it is)
+    base = ((1, 0, None), (2, 0, None), (3, 7, None), (2, 250, None), (2, 0, 1), (3, 0, 0), (3, 0, 2), (1, 256, None), (1, -1, None), (0, 0, None))
+    for (n, start, failing), remembered in [(b, False) for b in base] + [(b, True) for b in base[:4]]:
         calls, freed = [], []
         steps = [3, 5, 11]
         length, element_at = list_overrides({"LIST": [Ptr("CH%d" % k) for k in range(n)]})
@@ -280,10 +298,15 @@ def chain_list_table(prog, chk):
         ov = {"KSI_AggregationHashChainList_length": length, "KSI_AggregationHashChainList_elementAt": element_at, "KSI_AggregationHashChain_aggregate": aggregate,
               "KSI_DataHash_free": lambda I, p, node, a: ((freed.append(a[0]) if a[0] != 0 else None), TOP)[1]}
         inputs = {lp_: Ptr("LIST"), cp: Ptr("ctx"), vp: start, op: Ptr("RESULT")}
+        for k in range(n):
+            inputs.update({"CH%d->outputHash" % k: Ptr("REMEMBERED%d" % k) if remembered else 0, "CH%d->outputLevel" % k: 200 if remembered else 0,
+                           "CH%d->inputLevel" % k: 99 if remembered else 0})
+        ov["KSI_DataHash_ref"] = lambda I, p, node, a: a[0]
         I = Interp(fn, inputs=inputs, call_model=succeed_model(prog, ov), on_unknown="stop", prog=prog, loop_bound=n + 3)
         paths = I.run()
         chk.paths += len(paths)
-        inst = "chain list[%d chain(s), start level %d%s]" % (n, start, "" if failing is None else ", chain %d fails" % (failing + 1))
+        inst = "chain list[%d chain(s), start level %d%s%s]" % (n, start, "" if failing is None else ", chain %d fails" % (failing + 1),
+                                                                ", outputs of another level remembered" if remembered else "")
         if len(paths) != 1 or paths[0].undetermined or paths[0].ret is TOP:
             raise AnalysisBroken("KSI_AggregationHashChainList_aggregate: evaluation not determined for %s: %s" % (inst, [q.undetermined[:1] for q in paths]))
         q = paths[0]
@@ -417,3 +440,79 @@ def remembered_root_rule(prog, chk):
                                                                 "the root of the previous %s" % f), loc=fn.loc(ln), fn=fn)
     if n < 5:
         raise AnalysisBroken("C03.memo: only %d stores into the inputs of a remembered output hash found" % n)
+
+
+def sibling_table(prog, chk):
+    """"The sibling contributing its imprint, legacy-id bytes or serialized metadata": the step that feeds the sibling into the hasher is
+    evaluated for each kind of sibling.  What is handed to the hasher must be exactly what the sibling's accessor handed out - for a
+    metadata sibling the octets written by the element serializer (without header) in this very call: a metadata element that was parsed
+    keeps the octets it was parsed from next to its (possibly edited) element tree, and only the serializer knows which of the two is
+    current.  A link with no sibling or with two kinds is refused and nothing is hashed."""
+    from ksirules.interp import unit_helpers, inline_model
+    chk.rule("C03.sibling", "what a link contributes to the step hash: the imprint / the legacy-id octets / the metadata as serialized now "
+                            "(decision table over sibling kinds and the states of a metadata element)", floor=8)
+    fn = prog.fn("dataHasher_addLinkImprint", "hashchain.c")
+    cp, hp, lp = [p["n"] for p in fn.params]
+    NOHDR = prog.const("KSI_TLV_OPT_NO_HEADER") if "KSI_TLV_OPT_NO_HEADER" in prog.enum_consts else 1
+    rows = [("imprint sibling", 1, 0, 0, None, None), ("legacy-id sibling", 0, 1, 0, None, None), ("no sibling", 0, 0, 0, None, None),
+            ("imprint and legacy id", 1, 1, 0, None, None), ("imprint and metadata", 1, 0, 1, 0, 0)]
+    for snap in (0, 1):
+        for tree in (0, 1):
+            rows.append(("metadata sibling, %s, %s" % ("octets of the parse kept" if snap else "no parse octets", "element tree present (edited or built)" if tree else "no element tree"),
+                         0, 0, 1, snap, tree))
+    for label, hi, hl, hm, snap, tree in rows:
+        added, ser = [], []
+
+        def outp(val):
+            def f(I, p, node, args):
+                a1 = strip(node["a"][1])
+                I.write(p, I.canon(p, lvalue_key(a1["e"], I.fn)), val)
+                return 0
+            return f
+
+        def two_out(ptr, ln):
+            def f(I, p, node, args):
+                for k, v in ((1, ptr), (2, ln)):
+                    a = strip(node["a"][k])
+                    I.write(p, I.canon(p, lvalue_key(a["e"], I.fn)), v)
+                return 0
+            return f
+
+        def serialize(I, p, node, args):
+            from ksirules.interp import write_out
+            ser.append(tuple(args[:5]))
+            return 0 if write_out(I, p, node, 3, args, 17) else TOP
+
+        def add(I, p, node, args):
+            added.append((args[1], args[2]))
+            return 0
+        quiet = lambda I, p, n, a: TOP
+        ov = {"KSI_HashChainLink_getImprint": outp(Ptr("HASH") if hi else 0), "KSI_HashChainLink_getLegacyId": outp(Ptr("LEGACY") if hl else 0),
+              "KSI_HashChainLink_getMetaData": outp(Ptr("MD") if hm else 0), "KSI_DataHash_getImprint": two_out(Ptr("IMPRINT_OCTETS"), 33),
+              "KSI_OctetString_extract": two_out(Ptr("LEGACY_OCTETS"), 29), "KSI_TlvElement_serialize": serialize, "KSI_DataHasher_add": add,
+              "KSI_ERR_clearErrors": quiet, "KSI_LOG_logBlob": quiet, "KSI_ERR_push": quiet}
+        inputs = {cp: Ptr("ctx"), hp: Ptr("HSR"), lp: Ptr("LINK"), "MD->impl": Ptr("EL"), "EL->ptr": Ptr("SNAPSHOT") if snap else 0,
+                  "EL->subList": Ptr("TREE") if tree else 0, "EL->ftlv.hdr_len": 2, "EL->ftlv.dat_len": 9, "EL->ptr_own": 1 if snap else 0}
+        hs = unit_helpers(prog, fn) - set(ov)
+        I = Interp(fn, inputs=inputs, call_model=inline_model(prog, hs, fallback=succeed_model(prog, ov)) if hs else succeed_model(prog, ov), on_unknown="stop", prog=prog)
+        paths = I.run()
+        chk.paths += len(paths)
+        inst = "addLinkImprint[%s]" % label
+        if len(paths) != 1 or paths[0].undetermined:
+            raise AnalysisBroken("%s: evaluation not determined: %s" % (inst, [q.undetermined[:1] for q in paths]))
+        q = paths[0]
+        kinds = hi + hl + hm
+        if kinds != 1:
+            ok = isinstance(q.ret, int) and q.ret != 0 and not added
+            want = "an error, nothing hashed"
+        elif hi:
+            ok, want = q.ret == 0 and added == [(Ptr("IMPRINT_OCTETS"), 33)], "the 33 octets of the imprint"
+        elif hl:
+            ok, want = q.ret == 0 and added == [(Ptr("LEGACY_OCTETS"), 29)], "the 29 octets of the legacy id"
+        else:
+            from_ser = len(ser) == 1 and ser[0][0] == Ptr("EL") and len(added) == 1 and added[0] == (ser[0][1], 17) and ser[0][4] == NOHDR
+            from_snap = len(added) == 1 and not ser and added[0][1] == 9 and not tree and snap
+            ok = q.ret == 0 and (from_ser or from_snap)
+            want = "the octets the element serializer wrote in this call (17, without header)" + (" or the unedited parse octets" if snap and not tree else "")
+        chk.ob("C03.sibling", inst, ok, "expected the hasher to be given %s; source: status %s, serializer calls %d, hasher given %s"
+               % (want, q.ret, len(ser), added), loc=fn.loc(), fn=fn, nontrivial=kinds == 1)
